@@ -133,6 +133,9 @@ func writeCase(w *bufio.Writer, idx int, sp *Spec, b *Built, o outputs) {
 	}
 	for bi, bs := range sp.Buses {
 		d.byEid[b.Buses[bi].EntityID().String()] = hBus + bi
+		if bs.Builder < 0 {
+			d.byEid[b.Buses[bi].CANIDBuilder().EntityID().String()] = hBuilder + 500 + bi
+		}
 		for _, f := range bs.Ifs {
 			for _, ms := range f.Msgs {
 				d.msgH[ms] = hMsg + len(d.msgH)
@@ -146,9 +149,10 @@ func writeCase(w *bufio.Writer, idx int, sp *Spec, b *Built, o outputs) {
 	fmt.Fprintf(d.w, "net %s %s\n", hx(b.Net.Name()), hx(b.Net.Desc()))
 	for bi, bs := range sp.Buses {
 		bus := b.Buses[bi]
-		bh, bn := -1, ""
+		// every bus references a builder in the save (44b3abb: the default one too)
+		bh, bn := hBuilder+500+bi, bus.CANIDBuilder().Name()
 		if bs.Builder >= 0 {
-			bh, bn = hBuilder+bs.Builder, b.Builders[bs.Builder].Name()
+			bh = hBuilder + bs.Builder
 		}
 		fmt.Fprintf(d.w, "bus %d %s %s %d %d %s %s\n", hBus+bi, hx(bus.Name()), hx(bus.Desc()), bus.Baudrate(), bh, hx(bn), d.attrs(bs.Attrs))
 		for _, f := range bs.Ifs {
@@ -269,13 +273,15 @@ var (
 	reValPair  = regexp.MustCompile(` (\d+) "([^"]*)"`)
 	reBO       = regexp.MustCompile(`^BO_ (\d+) (\S+)\s*: (\d+) (.*)$`)
 	reSG       = regexp.MustCompile(`^\s*SG_ (\S+)`)
+	reBADef    = regexp.MustCompile(`^BA_DEF_ (BU_|BO_|SG_|)\s*"([^"]*)"`)
 	reBA       = regexp.MustCompile(`^BA_ "([^"]*)" (.*);$`)
 )
 
 // dbcEvents projects a DBC text onto its order skeleton: nodes (BU_), value tables, messages with
 // their signals, attribute value lines of user attributes (owner key, attribute name).
 func dbcEvents(text string, attrNames map[string]bool) []string {
-	var nodes, labs, msgs, asg []string
+	var nodes, labs, msgs, defs, asg []string
+	firstSig := false
 	for _, ln := range strings.Split(text, "\n") {
 		ln = strings.TrimRight(ln, "\r")
 		switch {
@@ -296,9 +302,25 @@ func dbcEvents(text string, attrNames map[string]bool) []string {
 		case strings.HasPrefix(ln, "BO_ "):
 			if m := reBO.FindStringSubmatch(ln); m != nil {
 				msgs = append(msgs, "M"+m[1]+"."+hx(m[2]))
+				firstSig = true
 			}
 		case reSG.MatchString(ln) && !strings.HasPrefix(ln, "SG_MUL_VAL_"):
+			if firstSig { // the receivers of the message, written on every signal line
+				firstSig = false
+				if k := strings.LastIndex(ln, "\""); k >= 0 {
+					for _, rn := range strings.Split(strings.TrimSpace(ln[k+1:]), ",") {
+						if rn = strings.TrimSpace(rn); rn != "" && rn != "Vector__XXX" {
+							msgs = append(msgs, "r"+hx(rn))
+						}
+					}
+				}
+			}
 			msgs = append(msgs, "S"+hx(reSG.FindStringSubmatch(ln)[1]))
+		case strings.HasPrefix(ln, "BA_DEF_ "):
+			if m := reBADef.FindStringSubmatch(ln); m != nil && attrNames[m[2]] {
+				k := map[string]int{"": 0, "BU_": 1, "BO_": 2, "SG_": 3}[m[1]]
+				defs = append(defs, fmt.Sprintf("D%d:%s", k, hx(m[2])))
+			}
 		case strings.HasPrefix(ln, "BA_ "):
 			m := reBA.FindStringSubmatch(ln)
 			if m == nil || !attrNames[m[1]] {
@@ -322,6 +344,8 @@ func dbcEvents(text string, attrNames map[string]bool) []string {
 	res = append(res, labs...)
 	res = append(res, "|")
 	res = append(res, msgs...)
+	res = append(res, "|")
+	res = append(res, defs...)
 	res = append(res, "|")
 	res = append(res, asg...)
 	return res
